@@ -39,6 +39,12 @@ type plan struct {
 	allocCalls      int
 	allocatedInOp   int
 	delivered       bool // an injected failure (or an allocation failure) reached the pool
+	// interleaving: a complete operation on ANOTHER file runs in the middle of this one,
+	// when the interK-th call of kind interKind (HR / DR / DW) is entered
+	interKind string
+	interK    int
+	interLine string
+	nested    bool // the nested operation ran
 }
 
 func noFaults() *plan { return &plan{dwK: -1, drK: -1, hrK: -1, hsK: -1, axK: -1} }
@@ -48,6 +54,22 @@ type env struct {
 	ss, nsec int
 	plan     *plan
 	viol     string // first thing a fake saw that breaks allocator accounting / device bounds
+	nest     func(line string) // runs a nested operation (set by the runner)
+	nesting  bool
+}
+
+// maybeNest runs the nested operation of the current plan when call number k of
+// the given kind is entered (at most one level deep).
+func (e *env) maybeNest(kind string, k int) {
+	pl := e.plan
+	if e.nesting || e.nest == nil || pl.interKind != kind || pl.interK != k || pl.nested {
+		return
+	}
+	pl.nested = true
+	e.nesting = true
+	e.nest(pl.interLine)
+	e.nesting = false
+	e.plan = pl
 }
 
 func (e *env) violate(format string, a ...any) {
@@ -67,6 +89,7 @@ func (d *fakeDevice) ReadAt(p []byte, off int64) (int, error) {
 	pl := d.e.plan
 	k := pl.nDR
 	pl.nDR++
+	d.e.maybeNest("DR", k)
 	if off < 0 || off+int64(len(p)) > int64(len(d.data)) {
 		d.e.violate("block device read [%d,%d) outside the device of %d bytes", off, off+int64(len(p)), len(d.data))
 		return 0, errOOB
@@ -88,6 +111,7 @@ func (d *fakeDevice) WriteAt(p []byte, off int64) (int, error) {
 	pl := d.e.plan
 	k := pl.nDW
 	pl.nDW++
+	d.e.maybeNest("DW", k)
 	if off < 0 || off+int64(len(p)) > int64(len(d.data)) {
 		d.e.violate("block device write [%d,%d) outside the device of %d bytes", off, off+int64(len(p)), len(d.data))
 		return 0, errOOB
@@ -131,6 +155,7 @@ func (h *patternHole) ReadAt(p []byte, off int64) (int, error) {
 	pl := h.e.plan
 	k := pl.nHR
 	pl.nHR++
+	h.e.maybeNest("HR", k)
 	n := len(p)
 	faulty := pl.hrK == k
 	if faulty {
